@@ -10,7 +10,7 @@ ID="$2-${VERIF_TIER:-x}-$$"
   flock 9
   [ -x $V/bin/mcgen ] || (cd $V/mcgen && go build -o $V/bin/mcgen .) || exit 2
   $V/bin/mcgen -src /repo -out $B/gen/mpb >$B/gen.log 2>&1 || { cat $B/gen.log; echo "mc.sh: cannot instrument /repo (not a verdict)"; exit 2; }
-  $V/bin/mcgen -src $V/scen -out $B/gen/scen -replace "github.com/vbauerster/mpb/v8=>$B/gen/mpb" >>$B/gen.log 2>&1 || { cat $B/gen.log; echo "mc.sh: cannot instrument scenarios against /repo (not a verdict)"; exit 2; }
+  $V/bin/mcgen -nofuel -src $V/scen -out $B/gen/scen -replace "github.com/vbauerster/mpb/v8=>$B/gen/mpb" >>$B/gen.log 2>&1 || { cat $B/gen.log; echo "mc.sh: cannot instrument scenarios against /repo (not a verdict)"; exit 2; }
   (cd $V/mc && go build -o $B/mc-$ID . ) || { echo "mc.sh: build failed (not a verdict)"; exit 2; }
   (cd $V/pristine && go build -o $B/pristine-$ID . ) || { echo "mc.sh: pristine build failed (not a verdict)"; exit 2; }
 ) 9>$B/.lock || exit 2
